@@ -259,3 +259,82 @@ kproof!(noerr_nocall, 9, fn c12_t_dot_ops_lists_through_evaluator() {
     kani::cover!(true, "reach-end");
     std::mem::forget(heap);
 });
+
+// ---- strings: lexicographic by bytes (= code points), a proper prefix first ----
+fn ascii_string(b: &[u8]) -> Value {
+    let mut v = Vec::<u8>::with_capacity(2);
+    let mut i = 0;
+    while i < b.len() {
+        v.push(b[i]);
+        i += 1;
+    }
+    let s = unsafe { String::from_utf8_unchecked(v) };
+    Value::String(StringPointer::new(arena::cell(HeapValue::String(s))))
+}
+fn cmp_u8(a: u8, b: u8) -> Ordering {
+    if a < b { Ordering::Less } else if a > b { Ordering::Greater } else { Ordering::Equal }
+}
+/// two 2-byte ASCII strings in different heap cells, a 1-byte string and the empty string:
+/// compare is the lexicographic order of the bytes, equals agrees with compare == Equal,
+/// a proper prefix is smaller, a string and a number are neither equal nor ordered
+kproof!(noerr, 5, fn c12_q_string_lexicographic_prefix_first() {
+    let (a0, a1, b0, b1, c0): (u8, u8, u8, u8, u8) = (kani::any(), kani::any(), kani::any(), kani::any(), kani::any());
+    kani::assume(a0 < 128 && a1 < 128 && b0 < 128 && b1 < 128 && c0 < 128);
+    let s = ascii_string(&[a0, a1]);
+    let t = ascii_string(&[b0, b1]);
+    let u = ascii_string(&[c0]);
+    let e = ascii_string(&[]);
+    let heap = arena::heap();
+    let h = heap.borrow();
+    let want = match cmp_u8(a0, b0) { Ordering::Equal => cmp_u8(a1, b1), o => o };
+    assert!(oka(s.compare(&t, &h)) == Some(want));
+    assert!(oka(t.compare(&s, &h)) == Some(want.reverse()));
+    assert!(oka(s.equals(&t, &h)) == (want == Ordering::Equal));
+    assert!(oka(t.equals(&s, &h)) == (want == Ordering::Equal));
+    assert!(oka(s.equals(&s, &h)) && oka(s.compare(&s, &h)) == Some(Ordering::Equal));
+    // [c0] vs [a0, a1]: decided by the first byte, a proper prefix is smaller
+    let want_p = match cmp_u8(c0, a0) { Ordering::Equal => Ordering::Less, o => o };
+    assert!(oka(u.compare(&s, &h)) == Some(want_p));
+    assert!(oka(s.compare(&u, &h)) == Some(want_p.reverse()));
+    assert!(!oka(u.equals(&s, &h)) && !oka(s.equals(&u, &h)));
+    // the empty string is a proper prefix of every non-empty string
+    assert!(oka(e.compare(&u, &h)) == Some(Ordering::Less));
+    assert!(oka(u.compare(&e, &h)) == Some(Ordering::Greater));
+    assert!(oka(e.compare(&e, &h)) == Some(Ordering::Equal));
+    assert!(oka(e.equals(&e, &h)) && !oka(e.equals(&u, &h)));
+    // a string and a number are neither equal nor ordered
+    assert!(!oka(s.equals(&Value::Number(0.0), &h)));
+    assert!(oka(s.compare(&Value::Number(0.0), &h)).is_none());
+    kani::cover!(a0 == b0 && a1 == b1, "reach equal contents in different cells");
+    kani::cover!(c0 == a0, "reach the prefix case");
+    drop(h);
+    std::mem::forget(heap);
+});
+/// three 2-byte strings: trichotomy, transitivity of < and of .==, and the unchecked built-ins
+/// ugt / ult / ugte / ulte agree with the order on strings
+kproof!(noerr, 5, fn c12_t_string_transitivity_and_unchecked() {
+    let b: [u8; 6] = [kani::any(), kani::any(), kani::any(), kani::any(), kani::any(), kani::any()];
+    kani::assume(b[0] < 128 && b[1] < 128 && b[2] < 128 && b[3] < 128 && b[4] < 128 && b[5] < 128);
+    let x = ascii_string(&[b[0], b[1]]);
+    let y = ascii_string(&[b[2], b[3]]);
+    let z = ascii_string(&[b[4], b[5]]);
+    let heap = arena::heap();
+    {
+        let h = heap.borrow();
+        let cmp = |p: &Value, q: &Value| oka(p.compare(q, &h));
+        let lt = |p: &Value, q: &Value| oka(p.compare(q, &h)) == Some(Ordering::Less);
+        let eq = |p: &Value, q: &Value| oka(p.equals(q, &h));
+        assert!(cmp(&x, &y).is_some());
+        assert!(eq(&x, &y) == (cmp(&x, &y) == Some(Ordering::Equal)));
+        if lt(&x, &y) && lt(&y, &z) { assert!(lt(&x, &z)); }
+        if eq(&x, &y) && eq(&y, &z) { assert!(eq(&x, &z)); }
+        assert!(eq(&x, &y) == eq(&y, &x));
+    }
+    let want = match cmp_u8(b[0], b[2]) { Ordering::Equal => cmp_u8(b[1], b[3]), o => o };
+    assert!(same_value(ok(call_bi(B::Ugt, av![x, y], &heap)), Value::Bool(want == Ordering::Greater)));
+    assert!(same_value(ok(call_bi(B::Ult, av![x, y], &heap)), Value::Bool(want == Ordering::Less)));
+    assert!(same_value(ok(call_bi(B::Ugte, av![x, y], &heap)), Value::Bool(want != Ordering::Less)));
+    assert!(same_value(ok(call_bi(B::Ulte, av![x, y], &heap)), Value::Bool(want != Ordering::Greater)));
+    kani::cover!(b[0] == b[2] && b[1] < b[3] && b[2] == b[4] && b[3] < b[5], "reach a chain x < y < z on the second byte");
+    std::mem::forget(heap);
+});
